@@ -39,7 +39,7 @@ Record ledger := mkL {
   l_hq : Z;         (* length of loop->handle_queue *)
   l_mem : Z;        (* live blocks obtained from uv__malloc & co. *)
   l_fds : Z;        (* open descriptors *)
-  l_watch : Z;      (* kernel inotify watches without a watcher_list entry *)
+  l_watch : Z;      (* kernel inotify watches of the loop's inotify instance *)
   l_dangling : Z    (* freed blocks still linked into a loop queue *)
 }.
 Definition l0 : ledger := mkL 0 0 0 0 0 0 0.
@@ -237,7 +237,7 @@ Definition uv_os_environ (env : list bool) (l : ledger) (w : world) : out :=
   if negb ok then mkO (Ret (RcErr ENOMEM)) l (Some (RcOther 0)) w
   else environ_loop env 0 (add_mem 1 l) w.
 
-(* uv_fs_event_start, src/unix/linux.c:2646-2702 with init_inotify 2462-2477 *)
+(* uv_fs_event_start, src/unix/linux.c:2646-2707 with init_inotify 2462-2477 *)
 Definition uv_fs_event_start (inotify_open known_wd need_resize : bool) (l : ledger) (w : world) : out :=
   let step2 (l : ledger) (w : world) : out :=
     let '(a, w) := sys PInotifyAdd w in
@@ -248,8 +248,8 @@ Definition uv_fs_event_start (inotify_open known_wd need_resize : bool) (l : led
       if known_wd then mkO (Ret RcOk) (add_handles 1 l) None w
       else
         let '(ok, w) := alloc PMalloc w in                 (* watcher_list, line 2684 *)
-        if negb ok then mkO (Ret (RcErr ENOMEM)) (add_watch 1 l) None w   (* the kernel watch stays *)
-        else mkO (Ret RcOk) (add_handles 1 (add_mem 1 l)) None w
+        if negb ok then mkO (Ret (RcErr ENOMEM)) l None w   (* inotify_rm_watch(wd) since /repo 3625d2b *)
+        else mkO (Ret RcOk) (add_watch 1 (add_handles 1 (add_mem 1 l))) None w
     end in
   if inotify_open then step2 l w
   else
